@@ -81,7 +81,7 @@ def snapshot_mutators(ti):
     return out
 
 
-def rule_changed_guards_mutation(ctx):
+def _rule_changed_guards_mutation_tick(ctx):
     facts = ctx.facts
     ti = get_fn(facts, "nucleo", TICK_INNER)
     muts = snapshot_mutators(ti)
@@ -161,6 +161,12 @@ def rule_changed_guards_mutation(ctx):
         ctx.violation(TICK + "|changed-or|1", site(tick, 0), "tick does not combine the `changed` of its phases with OR: %s" % bad[0][3])
     else:
         ctx.ok(site(tick, 0), "on all %d return paths of tick, changed ⊇ OR of the phases' changed" % len(tab))
+
+
+def rule_changed_guards_mutation(ctx):
+    facts = ctx.facts
+    if not getattr(ctx, "tick_flat", False):
+        _rule_changed_guards_mutation_tick(ctx)
     # who else can mutate the snapshot: &mut self.snapshot is taken only in tick_inner and restart
     for b in facts.bodies_of("nucleo"):
         fn = fn_of(b)
@@ -320,7 +326,7 @@ def rule_running_guards_spawn(ctx):
         ctx.ok(site(tick, 0), "on all %d return paths of tick, running ⊇ the last phase's running" % len(tab))
 
 
-def rule_running_formula(ctx):
+def _rule_running_formula_tick(ctx):
     ti = get_fn(ctx.facts, "nucleo", TICK_INNER)
     spawns = [(bi, t) for bi, t in ti.calls(lambda t: callee(t) == "rayon::ThreadPool::spawn")]
     sb = spawns[0][0]
@@ -352,6 +358,11 @@ def rule_running_formula(ctx):
             ctx.violation(TICK_INNER + "|running-formula|2", site(ti, bi, si), "unexpected definition of the running condition: %s" % show(e))
     if not saw_cmp:
         ctx.violation(TICK_INNER + "|running-formula|3", site(ti, sb), "no comparison of injected vs processed item counts decides `running`")
+
+
+def rule_running_formula(ctx):
+    if not getattr(ctx, "tick_flat", False):
+        _rule_running_formula_tick(ctx)
     # item_count = last_snapshot - in_flight.len()
     ic = get_fn(ctx.facts, "nucleo", "worker::Worker::<T>::item_count")
     rets = ret_aggregates(ic)
@@ -380,6 +391,33 @@ def rule_running_formula(ctx):
     run = get_fn(ctx.facts, "nucleo", "worker::Worker::<T>::run")
     if not [1 for bi, si, s in field_assigns(run, "running", "worker::Worker<") if bi == 0]:
         ctx.violation("worker::Worker::<T>::run|Worker.running|missing", site(run, 0), "run does not set Worker.running = true on entry: a finished run's results are never picked up and `changed` stays false")
+
+
+def _rule_status_lattice_tick(ctx):
+    facts = ctx.facts
+    # tick cancels exactly when status != Unchanged || state.canceled()
+    tick = get_fn(facts, "nucleo", TICK)
+    inner_calls = [(bi, t) for bi, t in tick.calls(lambda t: callee(t) == TICK_INNER)]
+    c = tick.expr_of_operand(inner_calls[0][1]["args"][2])
+    good = False
+    if c[0] == "local":
+        ds = tick.def_exprs(c[1])
+        has_true = any(e[0] == "const" and e[1] == 1 for _, _, e in ds)
+        has_state = any(e[0] == "call" and e[1] == "State::canceled" for _, _, e in ds)
+        ne = False
+        for bi, si, e in ds:
+            if e[0] == "const" and e[1] == 1:
+                for g in guards_of(tick, bi):
+                    ge = g[3]
+                    if ge[0] == "call" and str(ge[3]).endswith("PartialEq::ne"):
+                        other = peel(ge[2][1])
+                        if other[0] == "agg" and other[1].endswith("Status::Unchanged") and g[2] in ([None], [1]):
+                            ne = True
+        good = has_true and has_state and ne
+    if good:
+        ctx.ok(site(tick, inner_calls[0][0]), "tick cancels iff pattern.status() != Unchanged || state.canceled()")
+    else:
+        ctx.violation(TICK + "|cancel-condition|1", site(tick, inner_calls[0][0]), "cancel condition of tick is not `status != Unchanged || state.canceled()`: %s" % show(c))
 
 
 def rule_status_lattice(ctx):
@@ -450,29 +488,8 @@ def rule_status_lattice(ctx):
         ctx.ok(site(sf, 0), "status() is the maximum over the columns")
     else:
         ctx.violation("pattern::MultiPattern::status|max|1", site(sf, 0), "status() is not the maximum of the column statuses")
-    # tick cancels exactly when status != Unchanged || state.canceled()
-    tick = get_fn(facts, "nucleo", TICK)
-    inner_calls = [(bi, t) for bi, t in tick.calls(lambda t: callee(t) == TICK_INNER)]
-    c = tick.expr_of_operand(inner_calls[0][1]["args"][2])
-    good = False
-    if c[0] == "local":
-        ds = tick.def_exprs(c[1])
-        has_true = any(e[0] == "const" and e[1] == 1 for _, _, e in ds)
-        has_state = any(e[0] == "call" and e[1] == "State::canceled" for _, _, e in ds)
-        ne = False
-        for bi, si, e in ds:
-            if e[0] == "const" and e[1] == 1:
-                for g in guards_of(tick, bi):
-                    ge = g[3]
-                    if ge[0] == "call" and str(ge[3]).endswith("PartialEq::ne"):
-                        other = peel(ge[2][1])
-                        if other[0] == "agg" and other[1].endswith("Status::Unchanged") and g[2] in ([None], [1]):
-                            ne = True
-        good = has_true and has_state and ne
-    if good:
-        ctx.ok(site(tick, inner_calls[0][0]), "tick cancels iff pattern.status() != Unchanged || state.canceled()")
-    else:
-        ctx.violation(TICK + "|cancel-condition|1", site(tick, inner_calls[0][0]), "cancel condition of tick is not `status != Unchanged || state.canceled()`: %s" % show(c))
+    if not getattr(ctx, "tick_flat", False):
+        _rule_status_lattice_tick(ctx)
     # reparse never downgrades a pending Rescore
     rp = get_fn(facts, "nucleo", "pattern::MultiPattern::reparse")
     for bi, si, s in rp.stmts(lambda s: s["k"] == "assign" and s["lhs"]["p"] and isinstance(s["lhs"]["p"][-1], dict) and s["lhs"]["p"][-1].get("name") == "1"):
@@ -509,7 +526,7 @@ def rule_status_lattice(ctx):
         ctx.violation("worker::Worker::<T>::run|rescore-reset|1", site(run, 0), "no reset_matches under pattern_status == Rescore")
 
 
-def rule_pattern_handover(ctx):
+def _rule_pattern_handover_tick(ctx):
     facts = ctx.facts
     ti = get_fn(facts, "nucleo", TICK_INNER)
     spawns = [(bi, t) for bi, t in ti.calls(lambda t: callee(t) == "rayon::ThreadPool::spawn")]
@@ -538,6 +555,12 @@ def rule_pattern_handover(ctx):
             ctx.ok(site(ti, bi), "pattern status reset only by the cancelling phase")
         else:
             ctx.violation(TICK_INNER + "|reset-status|1", site(ti, bi), "pattern status reset outside the cancelling phase: an edit can be forgotten without a rescoring run")
+
+
+def rule_pattern_handover(ctx):
+    facts = ctx.facts
+    if not getattr(ctx, "tick_flat", False):
+        _rule_pattern_handover_tick(ctx)
     for b in facts.bodies_of("nucleo"):
         fn = fn_of(b)
         if fn.path == TICK_INNER:
